@@ -117,6 +117,35 @@ def hash_seeds(rep, graphs, seeds):
     return n
 
 
+def big_hash(rep):
+    """hash of a graph with more than 2**15 atoms (11 001 water molecules), against the same molecules with other
+    identifiers: isomorphic by construction (k-th molecule onto k-th molecule)"""
+    import stereomolgraph as smgmod
+
+    def waters(cls, n, off, step):
+        g = cls()
+        for k in range(n):
+            o, h1, h2 = (off + step * (3 * k + j) for j in range(3))
+            g.add_atom(o, "O")
+            g.add_atom(h1, "H")
+            g.add_atom(h2, "H")
+            g.add_bond(o, h1)
+            g.add_bond(h2, o)
+        return g
+    n = 0
+    for cls in (smgmod.MolGraph, smgmod.StereoMolGraph, smgmod.CondensedReactionGraph):
+        n += 1
+        try:
+            ha, hb = hash(waters(cls, 11001, 0, 1)), hash(waters(cls, 11001, 7, 3))
+        except Exception as e:
+            rep.violation(f"C03|hash-raises-on-large-graph|{cls.__name__}|{type(e).__name__}",
+                          f"hash() of a {cls.__name__} with 33 003 atoms raises {type(e).__name__}: {e}", {"atoms": 33003})
+            continue
+        if ha != hb:
+            rep.violation(f"C03|hash-differs-on-equal|large|{cls.__name__}", "two renamings of 11 001 water molecules hash differently", {})
+    return n
+
+
 def run(prop, tier):
     rep = Reporter(prop, tier)
     tot, per, samples = iso.collect(prop, tier, rep)
@@ -130,6 +159,7 @@ def run(prop, tier):
         seeds = [0, 1, 2, 12345] if tier == "quick" else [0, 1, 2, 3, 7, 99, 12345, 4294967295]
         extra_eval = hash_seeds(rep, gs, seeds)
         extra["hashseed_comparisons"] = extra_eval
+        extra["large_graph_hashes"] = big_hash(rep)
         extra["hashseeds"] = seeds
     if prop in ("C01", "C02", "C03", "C16"):
         from . import large
